@@ -118,6 +118,33 @@ func replayOnce(c *Ctx, rf *ReplayFile) (bool, string, error) {
 			}
 		}
 		return true, fmt.Sprintf("target %s: %v", rf.Target, clipList(diffs, 2)), nil
+	case "cli-c14-xflag":
+		layout, xf := fmt.Sprint(rf.Expect["layout"]), fmt.Sprint(rf.Expect["flag"])
+		plain := []DiskEntry{{Path: "in.dsl", Kind: "file", Data: in}}
+		long := false
+		for _, a := range rf.CLI.Argv {
+			if a == "--file" {
+				long = true
+			}
+		}
+		sub := len(rf.CLI.Argv) > 0 && rf.CLI.Argv[0] == "compile"
+		abs := strings.Contains(strings.Join(rf.CLI.Argv, " "), "{SB}")
+		aloneX := map[string]*CLIOutcome{}
+		for _, u := range AllTargets {
+			ou, err := c.sc.RunCLI(&CLIWorld{Argv: append(compileArgv([]string{u}, long, sub, abs), xf), Disk0: plain, Sched: s0()})
+			if err != nil {
+				return false, "", err
+			}
+			aloneX[u] = ou
+		}
+		ob, err := c.sc.RunCLI(rf.CLI)
+		if err != nil {
+			return false, "", err
+		}
+		if d := layoutDiff(aloneX, ob, layoutDirs(layout, AllTargets), AllTargets, rf.Target); len(d) > 0 {
+			return true, fmt.Sprintf("with %s target %s differs alone vs together in layout %s: %v", xf, rf.Target, layout, clipList(d, 2)), nil
+		}
+		return false, "with " + xf + " every file of target " + rf.Target + " is present and identical", nil
 	case "cli-c14-nofile":
 		plain := []DiskEntry{{Path: "in.dsl", Kind: "file", Data: in}}
 		alone := map[string]*CLIOutcome{}
